@@ -760,10 +760,10 @@ theorem nonvacuous_heap_overlay :
     (ovRun.get!).1.2 = [("base", 4), ("env", 6)] ∧ (ovRun.get!).1.1.size = 10 ∧
     -- Put of a list stores the caller's list #2 itself; Put of a container stores its LEAF #1 below a
     -- NEW container #7 (not the caller's #3); Populate's null is the shared nil leaf #0
-    lookupH (ovRun.get!).1.1 (ovRun.get!).1.2 "base" ["a", "b"] = some 2 ∧
-    lookupH (ovRun.get!).1.1 (ovRun.get!).1.2 "env" ["c", "x"] = some 1 ∧
-    lookupH (ovRun.get!).1.1 (ovRun.get!).1.2 "env" ["c"] = some 7 ∧
-    lookupH (ovRun.get!).1.1 (ovRun.get!).1.2 "env" ["d", "n"] = some 0 ∧
+    ovLookupH (ovRun.get!).1.1 (ovRun.get!).1.2 "base" ["a", "b"] = some 2 ∧
+    ovLookupH (ovRun.get!).1.1 (ovRun.get!).1.2 "env" ["c", "x"] = some 1 ∧
+    ovLookupH (ovRun.get!).1.1 (ovRun.get!).1.2 "env" ["c"] = some 7 ∧
+    ovLookupH (ovRun.get!).1.1 (ovRun.get!).1.2 "env" ["d", "n"] = some 0 ∧
     -- the snapshots: new roots, same documents, every reachable cell new (≥ 10)
     (ovRun.get!).2.1.2 = [("base", 14), ("env", 20)] ∧
     abs (ovRun.get!).2.1.1 14 = abs (ovRun.get!).1.1 4 ∧ abs (ovRun.get!).2.1.1 20 = abs (ovRun.get!).1.1 6 ∧
@@ -771,7 +771,7 @@ theorem nonvacuous_heap_overlay :
     -- the later Put changes the layer, not the snapshot
     abs (ovRun.get!).2.2.1 14 = abs (ovRun.get!).2.1.1 14 ∧
     abs (ovRun.get!).2.2.1 4 ≠ abs (ovRun.get!).2.1.1 4 ∧
-    lookupH (ovRun.get!).2.2.1 (ovRun.get!).2.2.2 "base" ["a", "z"] = some 1 := by
+    ovLookupH (ovRun.get!).2.2.1 (ovRun.get!).2.2.2 "base" ["a", "z"] = some 1 := by
   decide +kernel
 
 end heap
